@@ -91,7 +91,7 @@ def build_or_fail(prop, tier, assumptions):
 
 
 def generic(prop, tier, oracle, assumptions, interp_workloads, compiled_workloads, k_quick=10, k_thorough=40, extra_args=(), port_faults=True,
-            tick_choices=None, compiled_share=0.3, ncomp_quick=4, ncomp_thorough=40, need_par=True):
+            tick_choices=None, compiled_share=0.3, ncomp_quick=4, ncomp_thorough=40, need_par=True, ref_extra_args=None, synth_args=()):
     """interp_workloads / compiled_workloads: functions (exe, tier) -> iterator of Workload."""
     t0 = time.time()
     exe, bs = build_or_fail(prop, tier, assumptions)
@@ -109,7 +109,8 @@ def generic(prop, tier, oracle, assumptions, interp_workloads, compiled_workload
         w.meta["par_kinds"] = kinds
         return True
 
-    ref_i = lambda w: P.ref_case(w, extra_args=extra_args)
+    rargs = extra_args if ref_extra_args is None else ref_extra_args
+    ref_i = lambda w: P.ref_case(w, extra_args=rargs)
     ex.explore(interp_workloads(exe, tier), P.mk_cases_default(k, extra_args=extra_args, port_faults=port_faults, tick_choices=tick_choices), ref_i,
                total * (1 - compiled_share if compiled_workloads else 1.0), prepare=prep)
     nbefore = len(ex.results)
@@ -120,6 +121,7 @@ def generic(prop, tier, oracle, assumptions, interp_workloads, compiled_workload
         comp_iter = itertools.islice(compiled_workloads(exe, tier), ncomp)
 
         def prep_c(w):
+            w.meta["synth_args"] = list(synth_args)
             b = P.build_compiled(exe, w)
             if not b:
                 return False
@@ -128,7 +130,7 @@ def generic(prop, tier, oracle, assumptions, interp_workloads, compiled_workload
 
         mkc = P.mk_cases_default(k, mode="compiled", extra_args=extra_args, port_faults=port_faults, binary_of=lambda w: w.meta["binary"],
                                  tick_choices=tick_choices)
-        ref_c = lambda w: P.ref_case(w, "compiled", extra_args=extra_args, binary=w.meta["binary"])
+        ref_c = lambda w: P.ref_case(w, "compiled", extra_args=rargs, binary=w.meta["binary"])
         per_w = total * compiled_share / max(1.0, ncomp / float(NCPU))
         ex.explore(comp_iter, mkc, ref_c, total * compiled_share + 600, prepare=prep_c, per_workload_s=per_w)
         ref_any = lambda w: ref_c(w) if w.meta.get("binary") else ref_i(w)
@@ -206,8 +208,35 @@ def check_c11(tier):
         interp, comp, k_quick=12, k_thorough=40, ncomp_quick=3, ncomp_thorough=24)
 
 
-CHECKS = {"C03": check_c03, "C10": check_c10, "C11": check_c11, "C22": check_c22}
-ORACLES = {"C03": P.oracle_c03, "C10": P.oracle_c10, "C11": P.oracle_c11, "C22": P.oracle_c22}
+def check_c20(tier):
+    if not P.build_profcount():
+        return finish("C20", [], [], ["profile count extractor does not build"])
+    args = ["-p", "{OUT}/prof.json"]
+
+    def interp(exe, tier):
+        corpus = psim.corpus_workloads(P.C20_EXCLUDE)
+        random.Random(base_seed()).shuffle(corpus)
+        corpus = corpus[: (12 if tier == "quick" else 120)]
+        gen_ = (P.gen_workload("c20", s, "quick" if tier == "quick" else "thorough") for s in P.seeds_for("C20"))
+        return interleave(gen_, corpus)
+
+    def comp(exe, tier):
+        return (P.gen_workload("c20", s + 500000, "quick") for s in P.seeds_for("C20"))
+
+    return generic_profile("C20", tier, args, interp, comp)
+
+
+def generic_profile(prop, tier, args, interp, comp):
+    """like generic(), but the reference is the *unprofiled* -j1 run while the cases run with -p"""
+    ticks = [100, 1000, 10000, 100000, 1000000]
+    return generic(prop, tier, P.oracle_c20, P.A_PSIM + [
+        "tuple counts are read with the repository's own profile Reader (profile/Reader.h) and compared with the number of CSV lines written",
+        "the profile timer thread runs under the simulated clock: its wake-ups are seeded decisions"],
+        interp, comp, k_quick=10, k_thorough=30, extra_args=args, tick_choices=ticks, ncomp_quick=3, ncomp_thorough=20, ref_extra_args=(), synth_args=["-p", "unused-profile.json"])
+
+
+CHECKS = {"C03": check_c03, "C20": check_c20, "C10": check_c10, "C11": check_c11, "C22": check_c22}
+ORACLES = {"C03": P.oracle_c03, "C20": P.oracle_c20, "C10": P.oracle_c10, "C11": P.oracle_c11, "C22": P.oracle_c22}
 
 
 def replay(prop, path):
